@@ -488,11 +488,12 @@ def gfortran_outputs(case):
 def make_cases(chk, n):
     rng = chk.rng
     cases = []
-    systematic = G.gen_swap_systematic(rng)
+    systematic = [(p, [("swap", None), ("tile2d", {"tilesize": rng.choice([2, 2, 3, 4])})])
+                  for p in G.gen_swap_systematic(rng)] + [(p, [("fuse", None)]) for p in G.gen_fuse_systematic(rng)]
     for k in range(n + len(systematic)):
         x = rng.random()
         if k < len(systematic):
-            p, kinds = systematic[k], [("swap", None), ("tile2d", {"tilesize": rng.choice([2, 2, 3, 4])})]
+            p, kinds = systematic[k]
         elif x < 0.3:
             p, opts = G.gen_chunk(rng)
             kinds = [("chunk", opts), ("hoistbound", None)]
